@@ -78,6 +78,19 @@ CHECKS = {
    text="SignedDoc.tla states the abstract argument - the client verifies over the re-serialisation of what it parsed, so an accepted document's used content equals the signed content - for every position class and mutation kind and yields the expected verdicts (AcceptedMeansSigned, AlterationsRejected, InsertRejectedOrDropped, HarmlessAccepted, ForeignMembersVerify). The harness builds documents of every role type carrying unknown members at every level with a catch-all map and serves every single-point mutation at every concrete position (about 400 mutants) through load() with the original signatures; when a mutant is accepted the parsed content is compared with the signed original.",
    note="Honest limit: TLC contributes the classification and verdict table; whether each Rust struct field survives re-serialisation is decided only by the replay. F11 is a recorded finding.",
    technique="TLA+ model as oracle (TLC) + exhaustive single-point mutation of real signed documents through the real client"),
+
+ "C10": dict(cat="model_checking", design="5 C10",
+   text="Editor.tla models the public editing operations (add/remove target, version, delegate_role from targets or from a delegated role, sign_targets_editor, change_delegated_targets, sign) with exactly the success condition of each call, and the client's verification of the result; TLC checks SignedLoads for all programs of up to 5 operations. Every program of up to 4 operations that ends in sign - generated with the threshold check switched off, so that programs the editor must refuse are tried too - is executed with the real RepositoryEditor, written, published (copy and symlink), loaded back through an HTTP-like transport and through file:// URLs, every target downloaded, the client's view compared with the model's, and snapshot/timestamp compared with the written files (version, length, SHA-256). EditorX.tla enumerates the cross-party cases (threshold, versions, signer sets incl. foreign keys and double signatures) for update_delegated_targets.",
+   note="Trusted: TLC, signer-set abstraction. Programs up to 4 operations over 2 targets / 2 delegated roles exhaustively (thorough) - the 25-operation / 60-target scale of the property text is not reached. F14 is a recorded finding.",
+   technique="TLA+ model of the editor API (TLC exhaustive) + replay of every program through the real editor and client"),
+ "C17": dict(cat="model_checking", design="5 C17",
+   text="EditorUpdate.tla enumerates every repository shape (unknown top-level members in targets/snapshot/timestamp, custom data, a delegated role) x 0..2 added targets and states what from_repo + sign must carry over; each case is built by the harness's own writers, passed through RepositoryEditor::from_repo / sign / write, and the written JSON is compared with the input member by member (delegated file identical, its signature re-verified).",
+   note="Oracle-style: the model is a transcription of which members the editor copies; the comparison is on real files. Library path only (tuftool update not exercised).",
+   technique="TLA+ model as oracle (TLC) + replay through from_repo/sign/write with document comparison"),
+ "C19": dict(cat="model_checking", design="5 C19",
+   text="Cache.tla enumerates target subsets x root chain x trusted root version x one corrupted source target and states which calls must succeed and which root files must exist; each case runs Repository::cache on a repository with odd role and target names, lists the directory tree (confinement), loads the copy with a client holding the same root (HTTP-like and file://), compares versions, reads back every requested target and checks that a corrupted target is never stored.",
+   note="Oracle-style model; library path only (tuftool clone not exercised). F14 is a recorded finding.",
+   technique="TLA+ model as oracle (TLC) + replay through Repository::cache with directory and copy inspection"),
 }
 NA_REASON = "check not built yet in this round (planned, see DESIGN.md section 5); not claimed"
 
